@@ -2007,7 +2007,11 @@ class TypeAnalyser(SyntheticTypeVisitor[Type], TypeAnalyzerPluginInterface):
         ):
             if analyzed.prefix.arg_types:
                 self.fail("Invalid location for Concatenate", t, code=codes.VALID_TYPE)
-                self.note("You can use Concatenate as the first argument to Callable", t)
+                self.note(
+                    "You can use Concatenate as the first argument to Callable",
+                    t,
+                    code=codes.VALID_TYPE,
+                )
                 analyzed = AnyType(TypeOfAny.from_error)
             else:
                 self.fail(
